@@ -381,34 +381,52 @@ theorem recorded_temps_ignore_leftovers :
 
 /-! #### every file the command writes -/
 
+/-- the follow-up run recorded from the state where `p` was left torn rewrites `p`, whatever else it finds -/
+def repairedWhenTorn (sc : Scenario) (p : Path) : Bool :=
+  match sc.tornRecovery.lookup p with
+  | some rt => repairs AFS.top p rt
+  | none => false
+
 /-- a written file is fine if no meson command reads it, or it is a temp file (renamed away; leftovers are covered by
-    `recorded_temps_truncated`), or no kill can tear it, or the follow-up run rewrites it whatever it finds -/
+    `recorded_temps_truncated`), or no kill can tear it, or the follow-up run rewrites it whatever it finds, or — for
+    a writer that keeps a whole file — the follow-up run that finds it torn rewrites it -/
 def writesRecoverable (sc : Scenario) : Bool :=
   (writeSet sc.trace).all (fun p =>
     sc.ignored.contains p ||
     (replaceSources sc.trace).contains p ||
     (neverTornCheck p sc.fs0 sc.trace && !(sc.fs0 p).isTorn) ||
-    repairs sc.known p sc.recovery)
+    repairs sc.known p sc.recovery ||
+    repairedWhenTorn sc p)
 
 theorem recorded_writes_recoverable :
     ∀ sc ∈ CrashTraces.all, writesRecoverable sc = true := by
   decide +kernel
 
-/-- every state file a recorded command creates or writes is, at every crash point, either not torn or made whole
-    again by the recorded follow-up run — from whatever the kill left, not just from the recorded directory -/
+/-- every state file a recorded command creates or writes is, at every crash point, either not torn, or made whole
+    again by the recorded follow-up run from whatever the kill left, or rewritten by the follow-up run recorded from
+    the state where it was torn (again whatever else that run finds) -/
 theorem recorded_written_files_repaired :
     ∀ sc ∈ CrashTraces.all, ∀ p ∈ writeSet sc.trace, p ∉ sc.ignored → p ∉ replaceSources sc.trace →
-      ∀ s ∈ crashStates sc.fs0 sc.trace, s p ≠ .torn ∨ (run s sc.recovery) p ≠ .torn := by
+      ∀ s ∈ crashStates sc.fs0 sc.trace,
+        s p ≠ .torn ∨ (run s sc.recovery) p ≠ .torn ∨
+        ∃ rt, sc.tornRecovery.lookup p = some rt ∧ ∀ fs : FS Gen, (run fs rt) p ≠ .torn := by
   intro sc hsc p hp hign htmp s hs
   have h := recorded_writes_recoverable sc hsc
   simp only [writesRecoverable, List.all_eq_true] at h
   have hp' := h p hp
   simp only [Bool.or_eq_true, Bool.and_eq_true, Bool.not_eq_true'] at hp'
-  rcases hp' with ((hc | hc) | ⟨hn, h0⟩) | hr
+  rcases hp' with (((hc | hc) | ⟨hn, h0⟩) | hr) | ht
   · exact absurd (List.contains_iff_mem.mp hc) hign
   · exact absurd (List.contains_iff_mem.mp hc) htmp
   · exact Or.inl (neverTornCheck_sound p sc.fs0 sc.trace hn ((isTorn_false_iff _).mp h0) s hs)
-  · exact Or.inr (repairs_sound sc.known p sc.recovery hr s (sc.known_describes s hs))
+  · exact Or.inr (Or.inl (repairs_sound sc.known p sc.recovery hr s (sc.known_describes s hs)))
+  · right; right
+    unfold repairedWhenTorn at ht
+    cases hl : sc.tornRecovery.lookup p with
+    | none => simp [hl] at ht
+    | some rt =>
+      simp only [hl] at ht
+      exact ⟨rt, rfl, fun fs => repairs_sound AFS.top p rt ht fs (AFS.top_describes fs)⟩
 
 /-- the follow-up run too renames only files it opened truncating, whatever it finds -/
 theorem recorded_recovery_temps_truncated :
